@@ -237,6 +237,8 @@ impl SixelParser {
     }
 
     fn parse_sixel_data(&mut self, ch: char) -> EngineResult<()> {
+        #[cfg(icy_engine_verif)]
+        crate::verif::tick(1);
         match ch {
             '#' => {
                 self.parsed_numbers.clear();
@@ -318,6 +320,8 @@ impl Sixel {
     ///
     /// This function will return an error if .
     pub fn parse_from(pos: Position, horizontal_scale: i32, vertical_scale: i32, default_bg_color: [u8; 4], data: &str) -> EngineResult<Self> {
+        #[cfg(icy_engine_verif)]
+        crate::verif::sixel_gate(pos, data);
         let mut parser = SixelParser {
             pos,
             vertical_scale,
